@@ -31,6 +31,11 @@ def build(d):
         return claripy.FPV(fpref.bits_to_py(d[1], d[2]), csort(d[2]))
     if o == "fpv_py":
         return claripy.FPV(float.fromhex(d[1]), csort(d[2]))
+    if o == "fpv_int":
+        # a Python integer where a float is expected (FPV and the operators accept them)
+        if v == "op":
+            return claripy.FPS("xi" + d[2], csort(d[2]), explicit_name=True) + d[1]
+        return claripy.FPV(d[1], csort(d[2]))
     if o == "fps":
         return claripy.FPS(d[1], csort(d[2]), explicit_name=True)
     if o in ("fpadd", "fpsub", "fpmul", "fpdiv"):
